@@ -23,7 +23,7 @@ func init() { core.Register(c07{}) }
 func (c07) ID() string    { return "C07" }
 func (c07) Level() string { return "fault_enumeration" }
 func (c07) Rule() string {
-	return "cases = merge scenarios (history of puts/deletes/batches over small files; variants: plain, all keys deleted (empty output), mostly dead (fewer output files), oversized record, reopened with smaller limit (merge abandoned), second merge over an already adopted one); at EVERY hooked event (fs.mkdir/removeall/rename, io.open/write/sync/close/truncate/map, named points) inside Merge and inside the adopting Open a byte-exact image of data dir + merge dir is taken and reopened twice; every image must recover exactly the acknowledged mapping S_a; if the image held a finished (decodable) marker, the merge directory must be gone after the first reopen and the second reopen must not change the set of files; for events during adoption the retry Open of the image is itself imaged at each of its events (second crash during the retry). Non-trivial: >=1 image taken inside adoption with >=2 data files renamed and >=1 nested image; distinct = hash of (scenario, config, op list)"
+	return "cases = merge scenarios (history of puts/deletes/batches over small files; variants: plain, all keys deleted (empty output), mostly dead (fewer output files), oversized record, reopened with smaller limit (merge abandoned), second merge over an already adopted one); at EVERY hooked event (fs.mkdir/removeall/rename, io.open/write/sync/close/truncate/map, named points) inside Merge and inside the adopting Open a byte-exact image of data dir + merge dir is taken and reopened twice; every image must recover exactly the acknowledged mapping S_a; every 6th image taken inside Merge is then used further (half of the keys deleted, a new Merge run to completion, adopted, restarted twice: what an interrupted merge left behind must not leak into a later one); if the image held a finished (decodable) marker, the merge directory must be gone after the first reopen and the second reopen must not change the set of files; for events during adoption the retry Open of the image is itself imaged at each of its events (second crash during the retry). Non-trivial: >=1 image taken inside adoption with >=2 data files renamed and >=1 nested image; distinct = hash of (scenario, config, op list)"
 }
 func (c07) Assumptions() []string {
 	return []string{"process-death images only (power loss is outside this property's quantifier)", "sequential: no writer in flight during the imaged Merge"}
@@ -212,8 +212,10 @@ func (c07) Run(c core.Case, w *core.Worker) core.Result {
 	for round := 0; round < 2 && !s.Dead && res.Verdict != "violated"; round++ {
 		// Merge, imaged
 		phase = "merge"
+		cr.contMerge = true
 		n0 := res.Counters["images_process_death"]
 		s.Exec(core.Op{Kind: "merge"})
+		cr.contMerge = false
 		res.Add("images_in_merge", res.Counters["images_process_death"]-n0)
 		phase = ""
 		if s.Dead {
